@@ -1131,6 +1131,23 @@ func (w *World) reportedLag(n *MyNode) *float64 {
 	return nil
 }
 
+// ReportedLagNow: what a status query arriving at host right now would report (replication moves first, as it does when
+// a statement is executed).  ok = false for an unknown host.
+func (w *World) ReportedLagNow(host string) (lag *float64, ok bool) {
+	w.Mu.Lock()
+	defer w.Mu.Unlock()
+	n := w.Nodes[host]
+	if n == nil {
+		return nil, false
+	}
+	w.progress(n)
+	if l := w.reportedLag(n); l != nil {
+		x := *l
+		return &x, true
+	}
+	return nil, true
+}
+
 func (w *World) Digest() []NodeDigest {
 	w.Mu.Lock()
 	defer w.Mu.Unlock()
